@@ -529,13 +529,6 @@ func run(c *core.Ctx) error {
 	return nil
 }
 
-func workers(shard int) int {
-	if shard == 0 {
-		return 4
-	}
-	return 1
-}
-
 var startProfile = func() {}
 
 var reMaxLen = regexp.MustCompile(`\n  MaxLen = \d+`)
@@ -561,31 +554,37 @@ func (e *env) runTLC() ([]typeCase, []fuserCase, error) {
 		err   error
 		ok    bool
 	}
-	results := make([]result, nshards)
+	// shards 0..nshards-1 evaluate the type cases; one more process (Shard = -1) model-checks the
+	// Fuser state machine and the side lemmas
+	results := make([]result, nshards+1)
 	done := make(chan int)
-	for s := 0; s < nshards; s++ {
-		go func(s int) {
-			defer func() { done <- s }()
-			// one cfg per shard: only shard 0 model-checks the Fuser state machine
-			cfg := strings.Replace(string(cfgBytes), "\n  Shard = 0", fmt.Sprintf("\n  Shard = %d", s), 1)
-			cfg = strings.Replace(cfg, "\n  NShards = 1", fmt.Sprintf("\n  NShards = %d", nshards), 1)
-			if s != 0 {
+	for i := 0; i <= nshards; i++ {
+		go func(i int) {
+			defer func() { done <- i }()
+			shard, nworkers := i, 1
+			cfg := string(cfgBytes)
+			if i == nshards {
+				shard, nworkers = -1, 4
+			} else {
 				cfg = reMaxLen.ReplaceAllString(cfg, "\n  MaxLen = 0")
 				cfg = strings.Replace(cfg, "\nINVARIANTS BufferInv SchemaInv DoneInv", "\n", 1)
 			}
-			res := c.MustHold(core.TLCRun{Module: "FuseMerge", Cfg: cfg, Keep: []string{"cases.ndjson", "spill.ndjson"}, Workers: workers(s), Timeout: timeout, HeapMB: 3072})
+			cfg = strings.Replace(cfg, "\n  Shard = 0", fmt.Sprintf("\n  Shard = %d", shard), 1)
+			cfg = strings.Replace(cfg, "\n  NShards = 1", fmt.Sprintf("\n  NShards = %d", nshards), 1)
+			res := c.MustHold(core.TLCRun{Module: "FuseMerge", Cfg: cfg, Keep: []string{"cases.ndjson", "spill.ndjson"}, Workers: nworkers, Timeout: timeout, HeapMB: 3072})
 			if res == nil {
 				return
 			}
-			r := &results[s]
-			r.cases, r.err = core.ReadNDJSON[typeCase](res, "cases.ndjson")
-			if r.err == nil && s == 0 {
+			r := &results[i]
+			if shard >= 0 {
+				r.cases, r.err = core.ReadNDJSON[typeCase](res, "cases.ndjson")
+			} else {
 				r.spill, r.err = core.ReadNDJSON[fuserCase](res, "spill.ndjson")
 			}
 			r.ok = r.err == nil
-		}(s)
+		}(i)
 	}
-	for s := 0; s < nshards; s++ {
+	for i := 0; i <= nshards; i++ {
 		<-done
 	}
 	var cases []typeCase
